@@ -237,7 +237,7 @@ theorem classify_spec (vals thr : List ℝ) (hlen : vals.length = thr.length + 1
   · by_cases hl : thr[thr.length - 1]'(by omega) < x
     · refine ⟨vals[thr.length]'(by omega), ?_, List.getElem_mem _, fun h => absurd h h0, ?_, fun _ => rfl⟩
       · rw [classifyMid_all_lt]
-        · simp [h0, hl]
+        · simp [hl]
         · intro t ht
           obtain ⟨i, hi, rfl⟩ := List.getElem_of_mem ht
           have := hmono i (thr.length - 1) hi (by omega) (by omega); linarith
@@ -697,5 +697,145 @@ theorem prob_neg_zhCore_le (h : IsStdNormalCdf Φ Q) [IsProbabilityMeasure P] {Z
   rw [hB, hN] at l3
   linarith
 
+
+/-! ### Box-Cox, threshold lists, unfolding lemmas, stored-field maps (helpers of `Props/C19`) -/
+
+section
+variable {Φ Q : ℝ → ℝ}
+
+theorem lmbda_ne_zero {l : ℝ} (h : lmbdaIsZero l = false) : l ≠ 0 := by
+  intro h0
+  simp only [lmbdaIsZero, fabs_real, lit1em8, decide_eq_false_iff_not, not_le, h0, abs_zero] at h
+  norm_num at h
+
+theorem maxZero_of_nonneg {x : ℝ} (h : 0 ≤ x) : maxZero x = x := by
+  simp only [maxZero, Nat.cast_zero]
+  rw [if_neg (not_lt.mpr h)]
+
+theorem sortVals_perm (vals : List ℝ) : (sortVals vals).Perm vals := List.mergeSort_perm _ _
+
+theorem sortVals_sorted (vals : List ℝ) : (sortVals vals).Pairwise (· ≤ ·) := by
+  have := List.pairwise_mergeSort (le := fun a b : ℝ => decide (a ≤ b))
+    (fun a b c hab hbc => by simp only [decide_eq_true_eq] at *; exact le_trans hab hbc)
+    (fun a b => by simp only [Bool.or_eq_true, decide_eq_true_eq]; exact le_total a b) vals
+  exact this.imp (fun hab => by simpa using hab)
+
+theorem midpoints_length (l : List ℝ) : (midpoints l).length = l.length - 1 := by
+  induction l with
+  | nil => rfl
+  | cons a t ih =>
+    match t with
+    | [] => rfl
+    | b :: t' => simp only [midpoints, List.length_cons, ih]; omega
+
+theorem midpoints_getElem (l : List ℝ) (i : ℕ) (hi : i < (midpoints l).length) :
+    (midpoints l)[i] = (l[i + 1]'(by rw [midpoints_length] at hi; omega) + l[i]'(by rw [midpoints_length] at hi; omega)) / 2 := by
+  induction l generalizing i with
+  | nil => simp [midpoints] at hi
+  | cons a t ih =>
+    match t with
+    | [] => simp [midpoints] at hi
+    | b :: t' =>
+      cases i with
+      | zero => simp [midpoints]
+      | succ j =>
+        simp only [midpoints, List.getElem_cons_succ]
+        rw [ih j (by simpa [midpoints] using hi)]
+        rfl
+
+theorem midpoints_gt_head {b : ℝ} {t : List ℝ} (hs : (b :: t).Pairwise (· < ·)) : ∀ y ∈ midpoints (b :: t), b < y := by
+  induction t generalizing b with
+  | nil => intro y hy; simp [midpoints] at hy
+  | cons c t' ih =>
+    intro y hy
+    have hbc : b < c := (List.pairwise_cons.mp hs).1 c (by simp)
+    simp only [midpoints, List.mem_cons, Nat.cast_ofNat] at hy
+    rcases hy with rfl | hy
+    · linarith
+    · exact lt_trans hbc (ih (List.pairwise_cons.mp hs).2 y hy)
+
+theorem midpoints_ascending {l : List ℝ} (hs : l.Pairwise (· < ·)) : (midpoints l).Pairwise (· < ·) := by
+  induction l with
+  | nil => simp [midpoints]
+  | cons a t ih =>
+    match t with
+    | [] => simp [midpoints]
+    | b :: t' =>
+      simp only [midpoints, Nat.cast_ofNat]
+      have hab : a < b := (List.pairwise_cons.mp hs).1 b (by simp)
+      refine List.pairwise_cons.mpr ⟨?_, ih (List.pairwise_cons.mp hs).2⟩
+      intro y hy
+      have := midpoints_gt_head (List.pairwise_cons.mp hs).2 y hy
+      linarith
+
+theorem toUniform_eq (m v low high x : ℝ) :
+    toUniform Φ m v low high x = Φ ((x - m) / Real.sqrt v) * (high - low) + low := by
+  simp [toUniform, standardize]
+
+theorem toArcsin_eq (m v : ℝ) (a b : Option ℝ) (x : ℝ) :
+    toArcsin Φ m v a b x = uniformToArcsin (a.getD (arcsinDefaultA m v)) (b.getD (arcsinDefaultB m v))
+      (Φ ((x - m) / Real.sqrt v)) := by
+  simp [toArcsin, toUniform, standardize, lit00, lit10]
+
+theorem toUquad_eq (m v : ℝ) (a b : Option ℝ) (x : ℝ) :
+    toUquad Φ m v a b x = uniformToUquad (a.getD (uquadDefaultA m v)) (b.getD (uquadDefaultB m v))
+      (Φ ((x - m) / Real.sqrt v)) := by
+  simp [toUquad, toUniform, standardize, lit00, lit10]
+
+theorem equalThresholds_length (m v : ℝ) (n : ℕ) : (equalThresholds Q m v n).length = n - 1 := by
+  simp [equalThresholds]
+
+theorem equalThresholds_getElem (m v : ℝ) (n i : ℕ) (hi : i < (equalThresholds Q m v n).length) :
+    (equalThresholds Q m v n)[i] = m + Real.sqrt v * Q (((i + 1 : ℕ) : ℝ) / (n : ℝ)) := by
+  simp [equalThresholds]
+
+theorem lookup_set_self (st : FState ℝ) (n : String) (d : List ℝ) : (st.set n d).lookup n = some d := by
+  induction st with
+  | nil => simp [FState.set, FState.lookup]
+  | cons p t ih =>
+    obtain ⟨k, v⟩ := p
+    by_cases hk : (k == n) = true
+    · simp [FState.set, FState.lookup, hk]
+    · simp [FState.set, FState.lookup, hk, ih]
+
+theorem lookup_set_other (st : FState ℝ) (n n' : String) (d : List ℝ) (hne : n' ≠ n) :
+    (st.set n d).lookup n' = st.lookup n' := by
+  have hnn : (n == n') = false := by simpa using (Ne.symm hne)
+  induction st with
+  | nil => simp [FState.set, FState.lookup, hnn]
+  | cons p t ih =>
+    obtain ⟨k, v⟩ := p
+    by_cases hk : (k == n) = true
+    · have hkn : k = n := by simpa using hk
+      have : (k == n') = false := by rw [hkn]; exact hnn
+      simp [FState.set, FState.lookup, hk, hnn, this]
+    · by_cases hk' : (k == n') = true
+      · simp [FState.set, FState.lookup, hk, hk']
+      · simp [FState.set, FState.lookup, hk, hk', ih]
+
+theorem commit_spec (reserved : List String) (st : FState ℝ) (store : Store) (field : String) (out : List ℝ) :
+    let r := commit reserved st store field out
+    (∀ e, r.2 = .error e → r.1 = st) ∧
+    (∀ o, r.2 = .ok o → o = out ∧
+      match store with
+      | .no => r.1 = st
+      | .yes => r.1.lookup field = some out ∧ ∀ n', n' ≠ field → r.1.lookup n' = st.lookup n'
+      | .name n => r.1.lookup n = some out ∧ ∀ n', n' ≠ n → r.1.lookup n' = st.lookup n') := by
+  have key : ∀ (b : Bool) (n : String),
+      let r : FState ℝ × Except String (List ℝ) := if b = true then (st, .error "ValueError") else (st.set n out, .ok out)
+      (∀ e, r.2 = .error e → r.1 = st) ∧
+      (∀ o, r.2 = .ok o → o = out ∧ r.1.lookup n = some out ∧ ∀ n', n' ≠ n → r.1.lookup n' = st.lookup n') := by
+    intro b n
+    cases b
+    · simp only [Bool.false_eq_true, ↓reduceIte, reduceCtorEq, false_implies, implies_true, Except.ok.injEq, true_and]
+      intro o ho
+      exact ⟨ho.symm, lookup_set_self _ _ _, fun n' hn' => lookup_set_other _ _ _ _ hn'⟩
+    · simp
+  cases store with
+  | no => simp [commit, storeConfig]
+  | yes => exact key _ field
+  | name n => exact key _ n
+
+end
 
 end GSV.Lemmas.Transform
